@@ -591,6 +591,9 @@ func newWalked(siz int) *Walked {
 	if max < siz {
 		siz = max
 	}
+	if siz < 0 {
+		siz = 0
+	}
 	return &Walked{
 		Strides: make([]*Stride, 0, siz),
 	}
